@@ -309,6 +309,21 @@ Definition spec_interp_law (rtol : Q) (c : cin) (comb : list bool) (newivar : li
               end) (c_newloglam c) newivar
   end.
 
+(* any number of exposures: an exposure can contribute at most its largest input weight, and only where it brackets
+   the output pixel with passing pixels; so newivar_p <= sum over the bracketing exposures of max(ivar of that exposure)
+   (the running median of the weights only selects input values) *)
+Definition spec_stack_bound (rtol : Q) (c : cin) (comb : list bool) (newivar : list Q) : bool :=
+  let gf := good_flags c comb in
+  let n := length (c_inloglam c) in
+  let wt := fun i => match c_ivar c with Some iv => nthQ iv i | None => 1 end in
+  let per := map (fun j =>
+                let these := filter (fun i => (nth i (c_specnum c) O =? j)%nat) (seq 0 n) in
+                (map (fun i => (nthQ (c_inloglam c) i, nthB gf i)) these,
+                 fold_left (fun acc i => if Qltb acc (wt i) then wt i else acc) these 0)) (seq 0 (c_nspec c)) in
+  all2 (fun p v =>
+          Qle_bool v ((1 + rtol) * fold_left (fun acc e => if exists_bracket (fst e) p then acc + snd e else acc) per 0))
+       (c_newloglam c) newivar.
+
 Definition spec_basic (c : cin) (newflux newivar : list Q) : bool :=
   (length newflux =? length (c_newloglam c))%nat && (length newivar =? length (c_newloglam c))%nat &&
   forallb (fun v => Qle_bool 0 v) newivar.
@@ -344,12 +359,12 @@ Definition run_case (cs : case) : Z :=
   | CComb c fits obs_comb newflux newivar =>
       let m_ok := model_ok c fits obs_comb newflux newivar in
       let s_ok := spec_basic c newflux newivar && spec_zero_pattern c obs_comb newivar
-                  && spec_interp_law rtol9 c obs_comb newivar in
+                  && spec_interp_law rtol9 c obs_comb newivar && spec_stack_bound rtol9 c obs_comb newivar in
       ((if m_ok then 0 else 1) + (if s_ok then 0 else 2))%Z
   | CStage c fits obs_comb pre_flux pre_ivar newflux newivar =>
       let m_ok := model_ok c fits obs_comb newflux newivar && stages_ok c fits pre_flux pre_ivar in
       let s_ok := spec_basic c newflux newivar && spec_zero_pattern c obs_comb newivar
-                  && spec_interp_law rtol9 c obs_comb newivar in
+                  && spec_interp_law rtol9 c obs_comb newivar && spec_stack_bound rtol9 c obs_comb newivar in
       ((if m_ok then 0 else 1) + (if s_ok then 0 else 2))%Z
   end.
 Definition run_cases : list case -> list Z := map run_case.
@@ -361,7 +376,8 @@ Definition diagnose (cs : case) : list bool :=
        all2 (fun a b => Bool.eqb (Qeq_bool a 0) (Qeq_bool b 0)) newivar mi;
        all2 (close_rel rtol9) newivar mi;
        all2 (close_rel rtol6) newflux mf;
-       spec_basic c newflux newivar; spec_zero_pattern c obs_comb newivar; spec_interp_law rtol9 c obs_comb newivar] in
+       spec_basic c newflux newivar; spec_zero_pattern c obs_comb newivar; spec_interp_law rtol9 c obs_comb newivar;
+       spec_stack_bound rtol9 c obs_comb newivar] in
   match cs with
   | CComb c fits obs_comb newflux newivar => d c fits obs_comb newflux newivar
   | CStage c fits obs_comb pre_flux pre_ivar newflux newivar =>
